@@ -194,6 +194,9 @@ class Rewriter:
             if not m:
                 return text
             name = m.group(1)
+            if name in ("if", "while", "return", "match", "in", "else", "let", "break", "as", "mut", "ref", "move", "for", "loop"):
+                pos = m.end() - 1        # `if !(..)`, `return !(..)`: logical not, not a macro invocation
+                continue
             # guard: `!=` cases like `a != (b)` -> name followed by `!` then `=`? pattern needs bracket so fine
             toks = tokenize(text[m.end() - 1:])
             e = match_close(toks, 0)
@@ -644,10 +647,35 @@ class Rewriter:
             recv = text[rs:toks[k].start].strip()
             n += 1
             acc = "vx_acc%d" % n
+            pn = params[0].text
+            # simple predicate (comparisons / boolean operators over the element, no calls): the invariant is generated,
+            # the loop needs no annotation and is not counted as a source loop
+            btoks = [t for t in tokenize(body_src) if t.kind not in ("ws", "comment")]
+            simple = True
+            for bi, bt in enumerate(btoks):
+                if bt.kind == "ident" and bi + 1 < len(btoks) and btoks[bi + 1].text == "(":
+                    simple = False
+                if bt.kind == "punct" and bt.text in "{}[];|":
+                    simple = False
+                if bt.kind in ("str", "char", "life"):
+                    simple = False
+            auto_inv = ""
+            itname = ""
+            marker = "/*vx:%s*/" % which
+            if simple:
+                spec_body = re.sub(r"\*\s*%s\b" % re.escape(pn), "vx_recv%d@[vx_j]" % n, body_src)
+                spec_body = re.sub(r"(?<![\w.@])%s\b" % re.escape(pn), "vx_recv%d@[vx_j]" % n, spec_body)
+                q = "forall" if which == "all" else "exists"
+                conn = "==>" if which == "all" else "&&"
+                auto_inv = (" invariant %s == (%s|vx_j: int| 0 <= vx_j < vx_it%d.index@ %s (%s)), " % (acc, q, n, conn, spec_body))
+                itname = " vx_it%d:" % n
+                marker = "/*vx:auto*/"
             if which == "all":
-                repl = "{ let mut %s = true; for %s in %s.iter() { if (!(%s)) { %s = false; } } %s }" % (acc, params[0].text, recv, body_src, acc, acc)
+                repl = ("{ let vx_recv%d = &%s; let mut %s = true; %s for %s in%s vx_recv%d.iter()%s{ if !(%s) { %s = false; } } %s }"
+                        % (n, recv, acc, marker, pn, itname, n, auto_inv, body_src, acc, acc))
             else:
-                repl = "{ let mut %s = false; for %s in %s.iter() { if %s { %s = true; } } %s }" % (acc, params[0].text, recv, body_src, acc, acc)
+                repl = ("{ let vx_recv%d = &%s; let mut %s = false; %s for %s in%s vx_recv%d.iter()%s{ if %s { %s = true; } } %s }"
+                        % (n, recv, acc, marker, pn, itname, n, auto_inv, body_src, acc, acc))
             whole = text[rs:toks[close].end]
             repl = repl + "\n" * (whole.count("\n") - repl.count("\n"))
             text = text[:rs] + repl + text[toks[close].end:]
@@ -1029,7 +1057,7 @@ class Unit:
             if s.startswith("//@loop"):
                 lo = parse_opts(s[len("//@loop"):])
                 num = int([k for k in lo if k.isdigit()][0])
-                loops[num] = {"iter": lo.get("iter"), "lines": []}
+                loops[num] = {"iter": lo.get("iter"), "kind": lo.get("kind"), "lines": []}
                 cur = ("loop", num)
             elif s.startswith("//@proof"):
                 pm = re.match(r"//@proof\s+(before|after|blockend|start)\s*(?:/(.*)/)?\s*(?:#(\d+))?\s*$", s)
@@ -1164,7 +1192,8 @@ class Unit:
         # loops
         if loops:
             toks = tokenize(body)
-            kws = [k for k, t in enumerate(toks) if t.kind == "ident" and t.text in ("for", "while", "loop")]
+            kws = [k for k, t in enumerate(toks) if t.kind == "ident" and t.text in ("for", "while", "loop")
+                   and not re.search(r"/\*vx:auto\*/\s*$", body[:t.start])]
             # `for` in `impl X for Y` / HRTB does not occur in bodies we handle
             if len(kws) != len(loops) and not opts.get("extra_loops"):
                 # a loop without invariants makes the proof incomplete by construction: undecided, never an alarm
@@ -1174,6 +1203,12 @@ class Unit:
                 if num < 1 or num > len(kws):
                     raise ExtractError("anchor lost: loop %d of %s (found %d loops)" % (num, name, len(kws)))
                 k = kws[num - 1]
+                # loops generated by R25 carry their adaptor kind; the annotation names the kind it was written for
+                mk = re.search(r"/\*vx:(all|any)\*/\s*$", body[:toks[k].start])
+                have = mk.group(1) if mk else None
+                if (lp.get("kind") or None) != have:
+                    raise ExtractError("anchor lost: loop %d of %s is %s, the template annotates %s"
+                                       % (num, name, have or "a source loop", lp.get("kind") or "a source loop"))
                 depth = 0
                 j = k + 1
                 in_tok = None
